@@ -74,6 +74,17 @@ func runC01(tier string, seed uint64, rep *Report) {
 	expect(rep, "empty fn body is nil", L(Call("fn", V())), val(nil), "tmpl")
 	expect(rep, "arguments are evaluated once, left to right, before the call",
 		L(Call("fn", V(S("a"), S("b")), Call("trace!", 9), S("a")), Call("trace!", 1), Call("trace!", 2)), val(1, 1, 2, 9), "tmpl")
+	expect(rep, "the callee is evaluated before the arguments",
+		L(Call("do", Call("trace!", 1), S("list")), Call("trace!", 2), Call("trace!", 3)), val(L(2, 3), 1, 2, 3), "tmpl")
+	expect(rep, "the callee is looked up before an argument rebinds its name",
+		Call("do", Call("def", S("w"), Call("fn", V(S("x")), Call("list", Kw("old"), S("x")))), Call("w", Call("do", Call("def", S("w"), Call("fn", V(S("x")), Call("list", Kw("new"), S("x")))), 7))),
+		val(L(Kw("old"), 7)), "tmpl")
+	expect(rep, "a free name resolves to its innermost binding at the time of each lookup",
+		Call("do", Call("def", S("gx"), 1), Call("def", S("gf"), Call("let", V(S("k"), 10), Call("fn", V(), Call("+", S("gx"), S("k"))))),
+			Call("list", Call("gf"), Call("do", Call("def", S("gx"), 2), Call("gf")))), val(L(11, 12)), "tmpl")
+	expect(rep, "a closure calls the current definition of a global helper",
+		Call("do", Call("def", S("hh"), Call("fn", V(S("n")), Call("*", S("n"), 2))), Call("def", S("mk"), Call("fn", V(S("k")), Call("fn", V(S("n")), Call("+", S("k"), Call("hh", S("n")))))),
+			Call("def", S("api"), Call("mk", 100)), Call("list", Call("api", 1), Call("do", Call("def", S("hh"), Call("fn", V(S("n")), Call("*", S("n"), 3))), Call("api", 1)))), val(L(102, 103)), "tmpl")
 	expect(rep, "& rest collects the remaining arguments", L(Call("fn", V(S("a"), S("&"), S("r")), S("r")), 1, 2, 3), val(L(2, 3)), "tmpl")
 	expect(rep, "& rest may be empty", L(Call("fn", V(S("a"), S("&"), S("r")), S("r")), 1), val(L()), "tmpl")
 	expect(rep, "quote returns its operand unevaluated", Q(L(S("trace!"), 1)), val(L(S("trace!"), 1)), "tmpl")
